@@ -55,6 +55,45 @@ fn law(good: &[Vec<i64>], cases: usize) -> Vec<f64> {
     p
 }
 
+/// The same law without enumerating permutations: condition on the first case drawn.
+/// f(S, C) = uniform over S if |S| = 1 or C is empty, else the mean over c in C of
+/// f(filter(S, c), C \ {c}); memoised on (survivor set, remaining cases). Independent of
+/// `law` (used for matrices too large to enumerate, and cross-checked against it on small ones).
+fn law_memo(good: &[Vec<i64>], cases: usize) -> Vec<f64> {
+    use std::collections::HashMap;
+    fn go(good: &[Vec<i64>], surv: u64, rem: u32, memo: &mut HashMap<(u64, u32), Vec<(usize, f64)>>) -> Vec<(usize, f64)> {
+        let members: Vec<usize> = (0..good.len()).filter(|i| surv & (1 << i) != 0).collect();
+        if members.len() == 1 || rem == 0 {
+            let w = 1.0 / members.len() as f64;
+            return members.into_iter().map(|i| (i, w)).collect();
+        }
+        if let Some(v) = memo.get(&(surv, rem)) {
+            return v.clone();
+        }
+        let cs: Vec<usize> = (0..32).filter(|c| rem & (1 << c) != 0).collect();
+        let mut acc: HashMap<usize, f64> = HashMap::new();
+        for &c in &cs {
+            let best = members.iter().map(|i| good[*i][c]).max().unwrap();
+            let next = members.iter().filter(|i| good[**i][c] == best).fold(0u64, |m, i| m | (1 << i));
+            for (i, w) in go(good, next, rem & !(1 << c), memo) {
+                *acc.entry(i).or_insert(0.0) += w / cs.len() as f64;
+            }
+        }
+        let mut v: Vec<(usize, f64)> = acc.into_iter().collect();
+        v.sort_by_key(|x| x.0);
+        memo.insert((surv, rem), v.clone());
+        v
+    }
+    let n = good.len();
+    let mut p = vec![0.0; n];
+    let all = if n == 64 { u64::MAX } else { (1u64 << n) - 1 };
+    let rem = if cases == 0 { 0 } else { (1u32 << cases) - 1 };
+    for (i, w) in go(good, all, rem, &mut HashMap::new()) {
+        p[i] = w;
+    }
+    p
+}
+
 fn dominated(good: &[Vec<i64>], cases: usize, i: usize) -> Option<usize> {
     (0..good.len()).find(|&j| {
         j != i
@@ -83,7 +122,15 @@ fn fixed_matrices() -> Vec<(&'static str, Vec<Vec<i64>>, usize)> {
 fn run_matrix(name: &str, m: &[Vec<i64>], cases: usize, errors: bool, draws: u64, seed: u64, rep: &mut Report) {
     // goodness view
     let good: Vec<Vec<i64>> = m.iter().map(|r| r.iter().map(|v| if errors { -*v } else { *v }).collect()).collect();
-    let p = law(&good, cases);
+    let p = if cases <= 6 { law(&good, cases) } else { law_memo(&good, cases) };
+    if cases <= 6 {
+        // model-of-model sanity: the two independent derivations of the law agree
+        let q = law_memo(&good, cases);
+        if p.iter().zip(&q).any(|(a, b)| (a - b).abs() > 1e-9) {
+            rep.inconclusive(format!("harness: the two derivations of the lexicase law disagree on {m:?}"));
+            return;
+        }
+    }
     let n = m.len();
     let cfg = format!("{name} / {} / cases={cases}", if errors { "errors (lower is better)" } else { "scores (higher is better)" });
     let mut wins = vec![0u64; n];
@@ -159,9 +206,21 @@ pub fn run(args: &Args) -> i32 {
         let c = if g.chance(1, 4) { g.usize_below(avail + 1) } else { avail };
         configs.push((format!("random #{r}"), m, c, g.chance(1, 2)));
     }
+    // larger populations and more cases than individuals / more individuals than cases; the law
+    // comes from the memoised recursion (permutations of up to 14 cases cannot be enumerated)
+    let first_large = configs.len();
+    for r in 0..n_random / 6 {
+        let n = *g.pick(&[2usize, 3, 5, 8, 13, 21, 34, 55]);
+        let avail = *g.pick(&[7usize, 8, 9, 10, 12, 14]);
+        let hi = *g.pick(&[1i64, 1, 2, 3]);
+        let m: Vec<Vec<i64>> = (0..n).map(|_| (0..avail).map(|_| g.range(0, hi)).collect()).collect();
+        let c = if g.chance(1, 3) { 1 + g.usize_below(avail) } else { avail };
+        configs.push((format!("large random #{r}"), m, c, g.chance(1, 2)));
+    }
     let rep = run_shards(configs.len(), args.threads, 16 << 20, |i| {
         let mut rep = Report::new();
         let (name, m, c, errors) = &configs[i];
+        let draws = if i >= first_large { draws / 4 } else { draws };
         run_matrix(name, m, *c, *errors, draws, args.seed, &mut rep);
         rep
     });
@@ -175,10 +234,10 @@ pub fn run(args: &Args) -> i32 {
     rep.finish(
         args,
         "exploration",
-        "12 hand-built result matrices in which the order of cases matters (specialists, ties at every level, duplicates, a dominated individual, single individual, zero cases, fewer cases configured than available) and random matrices (<= 6 individuals x <= 5 cases, values 0..4), each in score and/or error polarity, with the stated number of seeded draws; distinct_nontrivial = distinct (matrix, polarity, case count) configurations",
+        "12 hand-built result matrices in which the order of cases matters (specialists, ties at every level, duplicates, a dominated individual, single individual, zero cases, fewer cases configured than available) random matrices (<= 6 individuals x <= 5 cases, values 0..4) and larger random matrices (2..55 individuals x 7..14 cases, law by memoised recursion), each in score and/or error polarity, with the stated number of seeded draws; distinct_nontrivial = distinct (matrix, polarity, case count) configurations",
         false,
         &[
-            "the law is computed by enumerating every permutation of the considered cases (<= 720)",
+            "the law is computed by enumerating every permutation of the considered cases (<= 720), and for more than 6 cases by an independent memoised recursion; both are compared with each other on every small matrix",
             "distributional claims are decided up to the stated resolution",
         ],
     )
